@@ -185,13 +185,18 @@ class Fn:
 
 
 class Facts:
-    def __init__(self, path):
+    def __init__(self, path, known_functions=None):
         with open(path) as f:
             self.d = json.load(f)
         self.crate = self.d["crate"]
+        self.inlined = []
+        bodies = {b["path"]: b for b in self.d["bodies"]}
+        if known_functions:
+            import inline
+            self.inlined, self.removed = inline.inline_new_helpers(bodies, set(known_functions))
         self.fns = {}
-        for b in self.d["bodies"]:
-            self.fns[b["path"]] = Fn(b)
+        for p_, b in bodies.items():
+            self.fns[p_] = Fn(b)
         self.adts = {a["path"]: a for a in self.d["adts"]}
         self.sigs = {s["path"]: s for s in self.d["sigs"]}
         self.consts = {c["path"]: int(c["val"]) for c in self.d["consts"]}
